@@ -980,6 +980,20 @@ def model_specs(draw, **kw):
       f32_in = [t for t in g.inputs if g.tensors[t]['dtype'] == 'f32' and t not in outs]
       if f32_in:
         outs.append(draw(st.sampled_from(f32_in)))
+    if cfg.get('const_outputs') and g.nodes and draw(st.integers(0, 7)) == 0:
+      # the function also returns one of its float constants (a "get the table"
+      # result); such a tensor may have no operator attached to it at all
+      fc = [i for i, t in enumerate(g.tensors) if t['kind'] == 'const' and t['dtype'] == 'f32']
+      if fc:
+        c = draw(st.sampled_from(fc))
+        if cfg.get('share_buffers') and g.tensors[c].get('share') is None and draw(st.booleans()):
+          # ... as a tensor of its own on the same buffer, attached to no operator
+          twin = copy.deepcopy(g.tensors[c])
+          twin['name'] = names.fresh(twin['name'] + '_out')
+          twin['share'] = [si, c]
+          g.tensors.append(twin)
+          c = len(g.tensors) - 1
+        outs.append(c)
     outs = list(draw(st.permutations(outs)))
     if cfg.get('dup_outputs', True) and draw(st.integers(0, 11)) == 0:
       # a function returning one tensor under two names lists it twice
